@@ -22,7 +22,7 @@ def run(ck):
     if not m["ok"]:
         raise ToolError("Gen_Damage did not complete: %s" % m["tail"][-800:])
     sim = ck.wd("sim.out")
-    r = tlc("Gen_Damage", cfg="Gen_Damage_sim", workers=8, out_path=sim, name="c06_sim", simulate=60 if ck.tier == "quick" else 4000, depth=44, timeout=7200)
+    r = tlc("Gen_Damage", cfg="Gen_Damage_sim", workers=8, out_path=sim, name="c06_sim", simulate=60 if ck.tier == "quick" else 800, depth=44, timeout=7200)
     ck.add_tlc(r)
     for o in [m["out"], sim]:
         bad = ck.wd(os.path.basename(o) + ".bad")
